@@ -44,7 +44,8 @@ impl Subset for Gvar<'_> {
                 self.data_for_gid(x.1)
                     .ok()
                     .flatten()
-                    .map(|data| data.len() as u32)
+                    // in the short format every glyph's data is padded to an even length
+                    .map(|data| (data.len() + data.len() % 2) as u32)
             })
             .sum();
 
@@ -140,6 +141,12 @@ fn subset_with_offset_type<OffsetType: GvarOffset>(
             s.embed_bytes(glyph_var_data.as_bytes())
                 .map_err(|_| SubsetError::SubsetTableError(Gvar::TAG))?;
             glyph_offset += glyph_var_data.len() as u32;
+            // short offsets store offset / 2: keep every offset even
+            if off_size == 2 && glyph_offset % 2 == 1 {
+                s.embed(0_u8)
+                    .map_err(|_| SubsetError::SubsetTableError(Gvar::TAG))?;
+                glyph_offset += 1;
+            }
         };
 
         s.copy_assign(start_idx, OffsetType::stored_value(glyph_offset));
